@@ -51,3 +51,11 @@ package pipc
 //@   trace_ensures !(deps.SuccessBody != "" && catchErr == nil) : !SUBMIT:success
 //@   trace_ensures deps.FailBody != "" && catchErr != nil : (SUBMIT:fail |APPERR )
 //@   trace_ensures deps.SuccessBody != "" && catchErr == nil : (SUBMIT:success |APPERR )
+
+// lock lists: every accepted name of the list is stored with the list's mode - the later list
+// wins for a name that stands in both (pip:run parses the read list first, so a name listed for
+// read and for write ends up locked for write)
+//@ func markBoolMapForNamespace [C15]
+//@   requires dest != nil
+//@   loop 1 invariant dest != nil && -1 <= $i && $i < len(rows)
+//@   loop 1 step has(dest, row) && dest[row] == value
